@@ -59,8 +59,22 @@ func (st Step) message() string {
 	return fmt.Sprintf("hookmsg-%d", st.Msg)
 }
 
+// HookSettings is the `settings:` block of a hook's configuration
+type HookSettings struct {
+	IntervalMs int `json:"interval_ms"` // executionMinInterval, written "<n>ms" (0 and negative: no limit)
+	Burst      int `json:"burst"`       // executionBurst (0 = default 1; negative with a positive interval: never runnable)
+}
+
+// Req is one ConversionReview of a session
+type Req struct {
+	Src     Ver    `json:"src"`
+	Desired Ver    `json:"desired"`
+	NReq    int    `json:"nreq"`
+	Plan    []Step `json:"plan"`
+}
+
 type Input struct {
-	Kind    string `json:"kind"` // "search" | "handler"
+	Kind    string `json:"kind"` // "search" | "handler" | "session"
 	Shape   string `json:"shape,omitempty"`
 	Spell   string `json:"spell,omitempty"`
 	Rules   []Rule `json:"rules"`
@@ -71,6 +85,9 @@ type Input struct {
 	NReq    int    `json:"nreq,omitempty"`
 	Plan    []Step `json:"plan,omitempty"`
 	NHooks  int    `json:"nhooks,omitempty"`
+	// session: per hook its settings (nil = no settings block) and the requests, posted back to back
+	Settings []*HookSettings `json:"settings,omitempty"`
+	Requests []Req           `json:"requests,omitempty"`
 }
 
 type Obj struct {
@@ -93,7 +110,20 @@ type Answer struct {
 	Raw     string `json:"raw"`           // Failure: result.message, every byte of it (this is what Coq gets)
 	Msg     string `json:"msg,omitempty"` // tag only: what the text looks like (hook | hookfailed | properror | notsuccessful | count | other)
 }
+// ReqObs: what was observed for one request of a session
+type ReqObs struct {
+	ChainFound bool      `json:"chain_found,omitempty"`
+	Chain      []Rule    `json:"chain,omitempty"`
+	Outs       []Outcome `json:"outs,omitempty"`
+	Trace      []Inv     `json:"trace,omitempty"`
+	Ans        *Answer   `json:"ans,omitempty"`
+	// tag only: hook runs of this request that found their hook's token bucket empty (estimated from
+	// the hooks' own start/end timestamps; never given to Coq)
+	Throttled int `json:"throttled,omitempty"`
+}
+
 type Obs struct {
+	Reqs       []ReqObs  `json:"reqs,omitempty"`    // session
 	Answers    [][]Rule  `json:"answers,omitempty"` // search: chain per query (nil = not found)
 	Found      []bool    `json:"found,omitempty"`
 	ChainFound bool      `json:"chain_found,omitempty"`
@@ -203,11 +233,13 @@ if [ "$1" = "--config" ]; then cat "$S/$H.config"; exit 0; fi
 k=0
 [ -f "$S/count" ] && read k < "$S/count"
 echo $((k+1)) > "$S/count"
+echo "$EPOCHREALTIME" > "$S/t0.$k"
 cp "$BINDING_CONTEXT_PATH" "$S/ctx.$k"
 echo "$H" > "$S/who.$k"
 [ -f "$S/resp.$k" ] && cp "$S/resp.$k" "$CONVERSION_RESPONSE_PATH"
 e=1
 [ -f "$S/exit.$k" ] && read e < "$S/exit.$k"
+echo "$EPOCHREALTIME" > "$S/t1.$k"
 exit $e
 `
 
@@ -386,33 +418,94 @@ func looksLike(msg string) string {
 	return "other"
 }
 
-func runHandler(in Input) (o Obs) {
+// rig: real hooks (bash stubs) + the real hook.Manager + the real conversionEventHandler + the real
+// conversion.WebhookHandler router, assembled once and asked any number of ConversionReviews
+type rig struct {
+	op      *shell_operator.ShellOperator
+	handler *conversion.WebhookHandler
+	state   string
+	tmp     string
+	reg     map[Rule]registrar
+	hookOf  map[string]int // hook file name -> hook number
+	runs    int            // hook executions so far (the stubs number their runs globally)
+	lastEnd float64        // when the latest hook execution ended (unix seconds), 0 = none yet
+	buckets []*simBucket   // tag only: token buckets re-played from the stubs' timestamps
+	close   func()
+}
+
+// simBucket re-plays a hook's token bucket from observed instants (tags only)
+type simBucket struct {
+	interval float64 // seconds
+	burst    float64
+	tokens   float64
+	last     float64
+	started  bool
+}
+
+// take: a Wait called at instant t; true = the bucket was empty (the execution has to be delayed)
+func (b *simBucket) take(t float64) bool {
+	if b == nil {
+		return false
+	}
+	if !b.started {
+		b.started, b.tokens = true, b.burst
+	} else if t > b.last {
+		b.tokens += (t - b.last) / b.interval
+		if b.tokens > b.burst {
+			b.tokens = b.burst
+		}
+	}
+	if t > b.last {
+		b.last = t
+	}
+	b.tokens--
+	return b.tokens < 0
+}
+
+func readStamp(path string) float64 {
+	b, err := os.ReadFile(path)
+	if err != nil {
+		return 0
+	}
+	f, _ := strconv.ParseFloat(strings.Replace(strings.TrimSpace(string(b)), ",", ".", 1), 64)
+	return f
+}
+
+func newRig(rules []Rule, nh int, settings []*HookSettings) (rg *rig, err error) {
 	root, err := os.MkdirTemp("", "c15-")
 	if err != nil {
-		o.Err = err.Error()
-		return
+		return nil, err
 	}
-	defer os.RemoveAll(root)
+	var closers []func()
+	closers = append(closers, func() { os.RemoveAll(root) })
+	closeAll := func() {
+		for k := len(closers) - 1; k >= 0; k-- {
+			closers[k]()
+		}
+	}
+	defer func() {
+		if err != nil {
+			closeAll()
+		}
+	}()
 	hooksDir, state, tmp := filepath.Join(root, "hooks"), filepath.Join(root, "state"), filepath.Join(root, "tmp")
 	for _, d := range []string{hooksDir, state, tmp} {
 		if err := os.Mkdir(d, 0o755); err != nil {
-			o.Err = err.Error()
-			return
+			return nil, err
 		}
 	}
-	nh := in.NHooks
 	if nh < 1 {
 		nh = 1
 	}
+	rg = &rig{state: state, tmp: tmp, reg: map[Rule]registrar{}, hookOf: map[string]int{}, buckets: make([]*simBucket, nh)}
 	// rule j is registered by hook j%nh, in bindings of up to two rules each
-	reg := map[Rule]registrar{}
 	type binding struct {
 		Name        string            `json:"name"`
 		CrdName     string            `json:"crdName"`
 		Conversions []conversion.Rule `json:"conversions"`
 	}
 	perHook := make([][]binding, nh)
-	for j, r := range in.Rules {
+	for j, r := range rules {
 		h := j % nh
 		bs := perHook[h]
 		if len(bs) == 0 || len(bs[len(bs)-1].Conversions) >= 2 {
@@ -420,33 +513,45 @@ func runHandler(in Input) (o Obs) {
 		}
 		bs[len(bs)-1].Conversions = append(bs[len(bs)-1].Conversions, toGoRule(r))
 		perHook[h] = bs
-		reg[r] = registrar{fmt.Sprintf("h%02d.sh", h), bs[len(bs)-1].Name}
+		rg.reg[r] = registrar{fmt.Sprintf("h%02d.sh", h), bs[len(bs)-1].Name}
 	}
 	for h := 0; h < nh; h++ {
 		name := fmt.Sprintf("h%02d.sh", h)
+		rg.hookOf[name] = h
 		cfg := map[string]any{"configVersion": "v1"}
 		if len(perHook[h]) > 0 {
 			cfg["kubernetesCustomResourceConversion"] = perHook[h]
 		} else {
 			cfg["onStartup"] = 1
 		}
+		if h < len(settings) && settings[h] != nil {
+			st := settings[h]
+			cfg["settings"] = map[string]any{"executionMinInterval": fmt.Sprintf("%dms", st.IntervalMs), "executionBurst": st.Burst}
+			if st.IntervalMs > 0 {
+				b := st.Burst
+				if b == 0 {
+					b = 1
+				}
+				if b > 0 {
+					rg.buckets[h] = &simBucket{interval: float64(st.IntervalMs) / 1000, burst: float64(b)}
+				}
+			}
+		}
 		b, _ := json.Marshal(cfg)
 		if err := os.WriteFile(filepath.Join(state, name+".config"), b, 0o644); err != nil {
-			o.Err = err.Error()
-			return
+			return nil, err
 		}
 		if err := os.WriteFile(filepath.Join(hooksDir, name), []byte(fmt.Sprintf(hookScript, state, name)), 0o755); err != nil {
-			o.Err = err.Error()
-			return
+			return nil, err
 		}
 	}
 
 	// the operator, assembled from its exported parts as assembleShellOperator does, minus
 	// listeners, kube client and certificates
 	ctx, cancel := context.WithCancel(context.Background())
-	defer cancel()
+	closers = append(closers, cancel)
 	op := shell_operator.NewShellOperator(ctx, shell_operator.WithLogger(log.NewNop()))
-	defer op.Stop()
+	closers = append(closers, op.Stop)
 	op.MetricStorage = metricstorage.NewMetricStorage(ctx, "verif_", true, log.NewNop())
 	op.HookMetricStorage = metricstorage.NewMetricStorage(ctx, "verif_hook_", true, log.NewNop())
 	op.SetupEventManagers()
@@ -458,8 +563,7 @@ func runHandler(in Input) (o Obs) {
 		Wmgr: nil, Cmgr: op.ConversionWebhookManager, Logger: log.NewNop(),
 	})
 	if err := op.HookManager.Init(); err != nil {
-		o.Err = "hook manager init: " + err.Error()
-		return
+		return nil, fmt.Errorf("hook manager init: %w", err)
 	}
 	// initConversionWebhookManager, without Init()/Start() of the TLS server
 	op.ConversionWebhookManager.EventHandlerFn = op.VerifConversionEventHandler
@@ -467,35 +571,43 @@ func runHandler(in Input) (o Obs) {
 	for _, n := range names {
 		op.HookManager.GetHook(n).HookController.EnableConversionBindings()
 	}
-	handler := conversion.NewWebhookHandler()
-	handler.Manager = op.ConversionWebhookManager
+	rg.op = op
+	rg.handler = conversion.NewWebhookHandler()
+	rg.handler.Manager = op.ConversionWebhookManager
+	rg.close = closeAll
+	return rg, nil
+}
 
+// serve posts one ConversionReview and reports what the hooks saw and what was answered
+func (rg *rig) serve(src, desired Ver, nreq int, plan []Step) (o ReqObs) {
 	// the chain the hook manager answers for this request (also fills its cache, so that the
 	// handler's own call is answered from the cache)
-	chain := op.HookManager.FindConversionChain(crdName, conversion.Rule{FromVersion: in.Src.String(), ToVersion: in.Desired.String()})
+	chain := rg.op.HookManager.FindConversionChain(crdName, conversion.Rule{FromVersion: src.String(), ToVersion: desired.String()})
 	o.ChainFound = len(chain) > 0
 	for _, r := range chain {
 		o.Chain = append(o.Chain, fromGoRule(r))
 	}
-	for k, st := range in.Plan {
+	base := rg.runs
+	for k, st := range plan {
 		if k >= len(o.Chain) {
 			break
 		}
-		out, resp, exit := concretise(st, k, o.Chain[k], in.Desired, in.NReq)
+		out, resp, exit := concretise(st, k, o.Chain[k], desired, nreq)
 		o.Outs = append(o.Outs, out)
 		if resp != "" {
-			_ = os.WriteFile(filepath.Join(state, fmt.Sprintf("resp.%d", k)), []byte(resp), 0o644)
+			_ = os.WriteFile(filepath.Join(rg.state, fmt.Sprintf("resp.%d", base+k)), []byte(resp), 0o644)
 		}
-		_ = os.WriteFile(filepath.Join(state, fmt.Sprintf("exit.%d", k)), []byte(strconv.Itoa(exit)+"\n"), 0o644)
+		_ = os.WriteFile(filepath.Join(rg.state, fmt.Sprintf("exit.%d", base+k)), []byte(strconv.Itoa(exit)+"\n"), 0o644)
 	}
 
-	req := mkObjs(1, in.NReq, in.Src)
+	req := mkObjs(1, nreq, src)
 	body := fmt.Sprintf(`{"apiVersion":"apiextensions.k8s.io/v1","kind":"ConversionReview","request":{"uid":"uid-1","desiredAPIVersion":%q,"objects":%s}}`,
-		in.Desired.String(), objsJSON(req))
+		desired.String(), objsJSON(req))
 	rq := httptest.NewRequest(http.MethodPost, "/"+crdName, bytes.NewReader([]byte(body)))
 	rq.Header.Set("Content-Type", "application/json")
 	rec := httptest.NewRecorder()
-	handler.Router.ServeHTTP(rec, rq)
+	posted := float64(time.Now().UnixNano()) / 1e9
+	rg.handler.Router.ServeHTTP(rec, rq)
 
 	ans := Answer{}
 	if rec.Code != http.StatusOK {
@@ -521,11 +633,11 @@ func runHandler(in Input) (o Obs) {
 	o.Ans = &ans
 
 	// what the hooks saw
-	n := 0
-	if b, err := os.ReadFile(filepath.Join(state, "count")); err == nil {
+	n := base
+	if b, err := os.ReadFile(filepath.Join(rg.state, "count")); err == nil {
 		n, _ = strconv.Atoi(strings.TrimSpace(string(b)))
 	}
-	for k := 0; k < n; k++ {
+	for k := base; k < n; k++ {
 		var ctxs []struct {
 			Binding     string `json:"binding"`
 			Type        string `json:"type"`
@@ -537,9 +649,21 @@ func runHandler(in Input) (o Obs) {
 				} `json:"request"`
 			} `json:"review"`
 		}
-		b, _ := os.ReadFile(filepath.Join(state, fmt.Sprintf("ctx.%d", k)))
-		who, _ := os.ReadFile(filepath.Join(state, fmt.Sprintf("who.%d", k)))
+		b, _ := os.ReadFile(filepath.Join(rg.state, fmt.Sprintf("ctx.%d", k)))
+		who, _ := os.ReadFile(filepath.Join(rg.state, fmt.Sprintf("who.%d", k)))
 		inv := Inv{Who: strings.TrimSpace(string(who))}
+		// tag only: was this hook's bucket empty when its Wait was called (just after the previous
+		// execution ended, or when the request was posted)?
+		called := posted
+		if rg.lastEnd > called {
+			called = rg.lastEnd
+		}
+		if h, ok := rg.hookOf[inv.Who]; ok && rg.buckets[h].take(called) {
+			o.Throttled++
+		}
+		if t1 := readStamp(filepath.Join(rg.state, fmt.Sprintf("t1.%d", k))); t1 > 0 {
+			rg.lastEnd = t1
+		}
 		if err := json.Unmarshal(b, &ctxs); err != nil || len(ctxs) != 1 || ctxs[0].Type != "Conversion" {
 			inv.Rule = Rule{Ver{0, bogusShort}, Ver{0, bogusShort}}
 			inv.Who += " (unexpected binding context: " + string(b) + ")"
@@ -551,23 +675,59 @@ func runHandler(in Input) (o Obs) {
 			}
 			inv.Objs = parseObjs(raws)
 			// "a request is handed to the hook and binding that registered that rule"
-			if want, ok := reg[inv.Rule]; !ok || want.hook != inv.Who || want.binding != ctxs[0].Binding {
+			if want, ok := rg.reg[inv.Rule]; !ok || want.hook != inv.Who || want.binding != ctxs[0].Binding {
 				inv.Who += fmt.Sprintf(" (ran as %s/%s, registrar is %s/%s)", inv.Who, ctxs[0].Binding, want.hook, want.binding)
 				inv.Rule = Rule{Ver{0, bogusShort}, inv.Rule.To}
 			}
 		}
 		o.Trace = append(o.Trace, inv)
 	}
-	// temp files of the executions must be gone
-	if left, _ := os.ReadDir(tmp); len(left) > 0 {
-		o.Err = fmt.Sprintf("%d temporary files left behind", len(left))
+	rg.runs = n
+	return
+}
+
+// temp files of the executions must be gone
+func (rg *rig) leftovers() string {
+	if left, _ := os.ReadDir(rg.tmp); len(left) > 0 {
+		return fmt.Sprintf("%d temporary files left behind", len(left))
 	}
+	return ""
+}
+
+func runHandler(in Input) (o Obs) {
+	rg, err := newRig(in.Rules, in.NHooks, nil)
+	if err != nil {
+		o.Err = err.Error()
+		return
+	}
+	defer rg.close()
+	r := rg.serve(in.Src, in.Desired, in.NReq, in.Plan)
+	o.ChainFound, o.Chain, o.Outs, o.Trace, o.Ans = r.ChainFound, r.Chain, r.Outs, r.Trace, r.Ans
+	o.Err = rg.leftovers()
+	return
+}
+
+// a session: hooks with or without settings, several requests posted back to back
+func runSession(in Input) (o Obs) {
+	rg, err := newRig(in.Rules, in.NHooks, in.Settings)
+	if err != nil {
+		o.Err = err.Error()
+		return
+	}
+	defer rg.close()
+	for _, q := range in.Requests {
+		o.Reqs = append(o.Reqs, rg.serve(q.Src, q.Desired, q.NReq, q.Plan))
+	}
+	o.Err = rg.leftovers()
 	return
 }
 
 func Run(in Input) Obs {
-	if in.Kind == "handler" {
+	switch in.Kind {
+	case "handler":
 		return runHandler(in)
+	case "session":
+		return runSession(in)
 	}
 	return runSearch(in)
 }
@@ -615,8 +775,89 @@ func lastHookMessage(obs *Obs) (string, bool) {
 	return obs.Outs[k].Msg, true
 }
 
+func settingsText(st *HookSettings) string {
+	if st == nil {
+		return "no settings"
+	}
+	return fmt.Sprintf("settings{executionMinInterval: %dms, executionBurst: %d}", st.IntervalMs, st.Burst)
+}
+
+func hookCount(in Input) int {
+	if in.NHooks < 1 {
+		return 1
+	}
+	return in.NHooks
+}
+
+func settingOf(in Input, h int) *HookSettings {
+	if h < len(in.Settings) {
+		return in.Settings[h]
+	}
+	return nil
+}
+
+// can the hook be executed at all (C15_Spec.runnable)
+func runnable(st *HookSettings) bool { return st == nil || st.IntervalMs <= 0 || st.Burst >= 0 }
+
+func readableReq(src, desired Ver, nreq int, plan []Step, q *ReqObs) []string {
+	out := []string{fmt.Sprintf("request: %d object(s) at %s, desired %s; plan %s", nreq, src, desired, planText(plan))}
+	if q == nil {
+		return out
+	}
+	if q.ChainFound {
+		out = append(out, "chain "+rulesText(q.Chain))
+	} else {
+		out = append(out, "chain: none")
+	}
+	for k, t := range q.Trace {
+		o := "?"
+		if k < len(q.Outs) {
+			o = fmt.Sprintf("%s failedMessage=%q %s", q.Outs[k].Kind, q.Outs[k].Msg, objsText(q.Outs[k].Objs))
+		}
+		out = append(out, fmt.Sprintf("run %d: %s for %s received %s; it produced %s", k, t.Who, t.Rule, objsText(t.Objs), o))
+	}
+	if len(q.Trace) == 0 {
+		out = append(out, "no hook was executed")
+	}
+	if n := len(q.Trace); n > 0 && n < len(q.Chain) && n <= len(q.Outs) {
+		if last := q.Outs[n-1]; last.Kind == "resp" && last.Msg == "" && (q.Ans == nil || !q.Ans.Success) {
+			out = append(out, fmt.Sprintf("step %d (%s) was NOT executed although no executed step failed", n+1, q.Chain[n]))
+		}
+	}
+	if q.Ans != nil {
+		if q.Ans.Success {
+			out = append(out, "answer: Success "+objsText(q.Ans.Objs))
+		} else {
+			out = append(out, fmt.Sprintf("answer: Failure, message %q", q.Ans.Raw))
+		}
+	}
+	return out
+}
+
 func readable(in Input, obs *Obs) []string {
 	out := []string{"rules " + rulesText(in.Rules)}
+	if in.Kind == "session" {
+		nh := hookCount(in)
+		for h := 0; h < nh; h++ {
+			var own []Rule
+			for j, r := range in.Rules {
+				if j%nh == h {
+					own = append(own, r)
+				}
+			}
+			out = append(out, fmt.Sprintf("hook h%02d.sh: %s, registers %s", h, settingsText(settingOf(in, h)), rulesText(own)))
+		}
+		for i, q := range in.Requests {
+			var qo *ReqObs
+			if i < len(obs.Reqs) {
+				qo = &obs.Reqs[i]
+			}
+			for _, l := range readableReq(q.Src, q.Desired, q.NReq, q.Plan, qo) {
+				out = append(out, fmt.Sprintf("[request %d] %s", i+1, l))
+			}
+		}
+		return out
+	}
 	if in.Kind == "handler" {
 		out = append(out, fmt.Sprintf("request: %d object(s) at %s, desired %s; plan %s", in.NReq, in.Src, in.Desired, planText(in.Plan)))
 		if obs.ChainFound {
@@ -717,6 +958,9 @@ func Render(in Input, obs *Obs, crash string) core.Case {
 		c.Tags = append(c.Tags, "crash")
 		return c
 	}
+	if in.Kind == "session" {
+		return renderSession(in, obs, c)
+	}
 	if in.Kind == "handler" {
 		chain := "[]"
 		if obs.ChainFound {
@@ -787,6 +1031,122 @@ func Render(in Input, obs *Obs, crash string) core.Case {
 	c.Tags = append(c.Tags, fmt.Sprintf("longest:%d", longest), fmt.Sprintf("queries:%02d", len(in.Queries)/8*8))
 	if found == 0 {
 		c.Tags = append(c.Tags, "nothing-found")
+	}
+	return c
+}
+
+func coqSettings(st *HookSettings) string {
+	switch {
+	case st == nil:
+		return "HS0"
+	case st.IntervalMs < 0: // a negative interval is no limit, like 0 (rate.Every); the notation has no sign
+		return fmt.Sprintf("HS 0 %d", max(st.Burst, 0))
+	case st.Burst < 0:
+		return fmt.Sprintf("HSn %d %d", st.IntervalMs, -st.Burst)
+	}
+	return fmt.Sprintf("HS %d %d", st.IntervalMs, st.Burst)
+}
+
+func intervalClass(ms int) string {
+	switch {
+	case ms <= 0:
+		return "none(<=0)"
+	case ms < 10:
+		return "001-009ms"
+	case ms < 50:
+		return "010-049ms"
+	case ms < 500:
+		return "050-499ms"
+	}
+	return "500ms+"
+}
+
+func renderSession(in Input, obs *Obs, c core.Case) core.Case {
+	nh := hookCount(in)
+	if len(obs.Reqs) != len(in.Requests) {
+		c.Coq = "CCrash"
+		c.JSON = map[string]any{"crash": "not every request was served", "obs": obs}
+		c.Key = fmt.Sprintf("crash %v", in)
+		c.Tags = append(c.Tags, "crash")
+		return c
+	}
+	owners := make([]string, len(in.Rules))
+	for j := range in.Rules {
+		owners[j] = strconv.Itoa(j % nh)
+	}
+	hsets := make([]string, nh)
+	inDomain, limited := true, 0
+	for h := 0; h < nh; h++ {
+		st := settingOf(in, h)
+		hsets[h] = coqSettings(st)
+		if !runnable(st) {
+			inDomain = false
+		}
+		if st == nil {
+			c.Tags = append(c.Tags, "hook:no-settings")
+			continue
+		}
+		c.Tags = append(c.Tags, "hook:settings", "interval:"+intervalClass(st.IntervalMs), fmt.Sprintf("burst:%+d", st.Burst))
+		if st.IntervalMs > 0 {
+			limited++
+		}
+	}
+	var qs []string
+	runs, throttled, found, sameHookSteps := 0, 0, 0, 0
+	keyReq := ""
+	for i, q := range in.Requests {
+		qo := obs.Reqs[i]
+		chain := "[]"
+		if qo.ChainFound {
+			chain = coqChain(in.Rules, qo.Chain)
+			found++
+		}
+		qs = append(qs, fmt.Sprintf("SQ %s %s %s %s\n   %s %s\n   %s (%s)",
+			coqVer(q.Src), coqVer(q.Desired), core.CoqBytes(q.Desired.String()), chain,
+			coqObjs(mkObjs(1, q.NReq, q.Src)), core.CoqList(qo.Outs, coqOutcome),
+			core.CoqList(qo.Trace, func(i Inv) string { return fmt.Sprintf("(%d,%s)", ruleIndex(in.Rules, i.Rule), coqObjs(i.Objs)) }),
+			coqAnswer(qo.Ans)))
+		keyReq += fmt.Sprintf(" | %s %s %d %q", coqVer(q.Src), coqVer(q.Desired), q.NReq, planText(q.Plan))
+		runs += len(qo.Trace)
+		throttled += qo.Throttled
+		// steps of this chain served by a hook that already served an earlier step of it
+		seen := map[int]bool{}
+		for _, r := range qo.Chain {
+			h := ruleIndex(in.Rules, r) % nh
+			if seen[h] {
+				sameHookSteps++
+			}
+			seen[h] = true
+		}
+		c.Tags = append(c.Tags, fmt.Sprintf("chainlen:%d", len(qo.Chain)))
+		for k, st := range q.Plan {
+			if k < len(qo.Trace) {
+				c.Tags = append(c.Tags, "step:"+st.Kind)
+			}
+		}
+		switch {
+		case qo.Ans != nil && qo.Ans.Success:
+			c.Tags = append(c.Tags, "answer:Success")
+		case qo.Ans != nil:
+			c.Tags = append(c.Tags, "answer:Failed/"+qo.Ans.Msg)
+		}
+	}
+	c.Coq = fmt.Sprintf("CSS %s %s [%s]\n  [%s]", coqRules(in.Rules), "["+strings.Join(owners, "; ")+"]", strings.Join(hsets, "; "), strings.Join(qs, ";\n   "))
+	c.JSON = map[string]any{"obs": obs, "readable": readable(in, obs)}
+	c.Key = fmt.Sprintf("Q %s %d [%s]%s", coqRules(in.Rules), nh, strings.Join(hsets, "; "), keyReq)
+	c.Nontrivial = found == len(in.Requests) && runs >= 2
+	c.Tags = append(c.Tags, fmt.Sprintf("requests:%d", len(in.Requests)), fmt.Sprintf("hooks:%d", nh), fmt.Sprintf("limited-hooks:%d", limited),
+		fmt.Sprintf("session-runs:%02d", runs), fmt.Sprintf("steps-by-a-hook-that-already-served-the-chain:%d", sameHookSteps))
+	switch {
+	case throttled == 0:
+		c.Tags = append(c.Tags, "throttled-runs:0")
+	case throttled <= 2:
+		c.Tags = append(c.Tags, fmt.Sprintf("throttled-runs:%d", throttled))
+	default:
+		c.Tags = append(c.Tags, "throttled-runs:3+")
+	}
+	if !inDomain {
+		c.Tags = append(c.Tags, "settings:never-runnable(informational)")
 	}
 	return c
 }
@@ -1117,6 +1477,157 @@ func (g *gen) handlerCase() Input {
 	return in
 }
 
+// ---- sessions: hooks with `settings`, several requests back to back
+//
+// Timing.  Neither the model nor the comparison knows about time: a rate-limited hook is delayed,
+// its runs and the answer are those of a hook without settings.  Time matters only for what a case
+// EXERCISES: a run is throttled when it follows the previous run of the same hook (beyond the burst)
+// within executionMinInterval.  One stub execution takes a few milliseconds, so intervals of 20 ms and
+// more are practically always hit by the next step of a chain or the next request; 5-10 ms intervals
+// are hit sometimes (tag throttled-runs:<n>, estimated from the stubs' own timestamps).  A case lasts
+// about as long as the waits its settings impose: the generator keeps that under waitBudgetMs.
+const waitBudgetMs = 320
+
+var sessionIntervals = []int{5, 10, 20, 20, 30, 40, 40, 60}
+
+// expected waiting of a session if every run beyond the burst waits a full interval (upper estimate)
+func expectedWaitMs(in Input, chainHooks [][]int) int {
+	nh := hookCount(in)
+	runs := make([]int, nh)
+	for _, hs := range chainHooks {
+		for _, h := range hs {
+			runs[h]++
+		}
+	}
+	total := 0
+	for h := 0; h < nh; h++ {
+		st := settingOf(in, h)
+		if st == nil || st.IntervalMs <= 0 || st.Burst < 0 {
+			continue
+		}
+		b := st.Burst
+		if b == 0 {
+			b = 1
+		}
+		if runs[h] > b {
+			total += (runs[h] - b) * st.IntervalMs
+		}
+	}
+	return total
+}
+
+func (g *gen) sessionCase(neverRunnable bool) Input {
+	spell := []string{"short", "full"}[g.r.Intn(2)]
+	// a line of 1-3 steps (the usual layout: v1 -> v2 -> v3 ...), sometimes with the way back or a side branch
+	steps := 1 + g.r.Intn(3)
+	if g.r.Chance(35) {
+		steps = 2
+	}
+	shape := fmt.Sprintf("line%d", steps)
+	nodes := g.names(steps + 2)
+	var rules []Rule
+	for i := 0; i < steps; i++ {
+		rules = append(rules, Rule{g.spell(nodes[i], spell, 1), g.spell(nodes[i+1], spell, 1)})
+	}
+	back := false
+	switch {
+	case g.r.Chance(25):
+		back = true
+		shape += "+back"
+		for i := steps; i > 0; i-- {
+			rules = append(rules, Rule{g.spell(nodes[i], spell, 1), g.spell(nodes[i-1], spell, 1)})
+		}
+	case g.r.Chance(20):
+		shape += "+branch"
+		rules = append(rules, Rule{g.spell(nodes[g.r.Intn(steps)], spell, 1), g.spell(nodes[steps+1], spell, 1)})
+	}
+	in := Input{Kind: "session", Shape: shape, Spell: spell, Rules: rules}
+	// hooks: one hook per CRD is the usual layout; with two hooks over three steps hook 0 serves steps 1 and 3
+	switch x := g.r.Intn(100); {
+	case x < 55:
+		in.NHooks = 1
+	case x < 90:
+		in.NHooks = 2
+	default:
+		in.NHooks = 3
+	}
+	in.Settings = make([]*HookSettings, in.NHooks)
+	for h := range in.Settings {
+		if h > 0 && g.r.Chance(30) {
+			continue // no settings block
+		}
+		st := &HookSettings{IntervalMs: sessionIntervals[g.r.Intn(len(sessionIntervals))], Burst: 1}
+		switch x := g.r.Intn(100); {
+		case x < 20:
+			st.Burst = 0 // the default
+		case x < 65:
+			st.Burst = 1
+		case x < 88:
+			st.Burst = 2
+		default:
+			st.Burst = 3
+		}
+		switch x := g.r.Intn(100); {
+		case x < 5:
+			st.IntervalMs = 0 // settings without a limit
+		case x < 8:
+			st.IntervalMs = -20
+		}
+		in.Settings[h] = st
+	}
+	if neverRunnable {
+		in.Settings[g.r.Intn(in.NHooks)] = &HookSettings{IntervalMs: sessionIntervals[g.r.Intn(len(sessionIntervals))], Burst: -1 - g.r.Intn(3)}
+	}
+	// requests: the whole line mostly, a part of it or the way back otherwise
+	nq := 1 + g.r.Intn(3)
+	var chainHooks [][]int
+	for i := 0; i < nq; i++ {
+		a, b := 0, steps
+		if g.r.Chance(30) {
+			a = g.r.Intn(steps)
+			b = a + 1 + g.r.Intn(steps-a)
+		}
+		var hs []int
+		for k := a; k < b; k++ {
+			hs = append(hs, k%in.NHooks)
+		}
+		if back && g.r.Chance(30) {
+			a, b = b, a
+			hs = nil
+			for k := a; k > b; k-- {
+				hs = append(hs, (steps+(steps-k))%in.NHooks)
+			}
+		}
+		q := Req{Src: g.spell(nodes[a], "mixed", 1), Desired: g.spell(nodes[b], "mixed", 1), NReq: 1 + g.r.Intn(2), Plan: oks(4)}
+		if g.r.Chance(30) {
+			q.Plan[g.r.Intn(len(hs))] = g.fault()
+		}
+		in.Requests = append(in.Requests, q)
+		chainHooks = append(chainHooks, hs)
+	}
+	for len(in.Requests) > 1 && expectedWaitMs(in, chainHooks) > waitBudgetMs {
+		in.Requests = in.Requests[:len(in.Requests)-1]
+		chainHooks = chainHooks[:len(chainHooks)-1]
+	}
+	for expectedWaitMs(in, chainHooks) > waitBudgetMs {
+		for _, st := range in.Settings {
+			if st != nil && st.IntervalMs > 5 {
+				st.IntervalMs /= 2
+			}
+		}
+	}
+	return in
+}
+
+// the documented style: one hook for the CRD, executionMinInterval in SECONDS, two steps: one long wait
+func (g *gen) slowSessionCase() Input {
+	nodes := g.names(3)
+	return Input{Kind: "session", Shape: "line2", Spell: "short", NHooks: 1,
+		Rules:    []Rule{rl(nodes[0], nodes[1]), rl(nodes[1], nodes[2])},
+		Settings: []*HookSettings{{IntervalMs: 1000 + 250*g.r.Intn(5), Burst: 1}},
+		Requests: []Req{{Src: g.spell(nodes[0], "mixed", 1), Desired: g.spell(nodes[2], "mixed", 1), NReq: 1 + g.r.Intn(2), Plan: oks(4)}}}
+}
+
 func v(s int) Ver      { return Ver{0, s} }
 func rl(a, b int) Rule { return Rule{v(a), v(b)} }
 func oks(n int) []Step {
@@ -1191,6 +1702,37 @@ func Corpus() []Input {
 			Plan: with(oks(4), 0, Step{Kind: "msgnotstring"})},
 		{Kind: "handler", Shape: "corpus-msg", Spell: "short", Rules: lin[:1], Src: v(0), Desired: Ver{1, 3}, NReq: 1, NHooks: 1,
 			Plan: with(oks(4), 0, Step{Kind: "exit1msg", Class: "percent", Text: "100% broken"})},
+		// hooks with execution-rate settings are delayed, never skipped.
+		// one hook for the CRD serves both steps of v1 -> v2 -> v3 (the second step follows within the interval)
+		{Kind: "session", Shape: "corpus-settings", Spell: "short", Rules: lin[:2], NHooks: 1,
+			Settings: []*HookSettings{{IntervalMs: 40, Burst: 1}},
+			Requests: []Req{{Src: v(0), Desired: v(5), NReq: 2, Plan: oks(4)}}},
+		// a single step, three requests back to back
+		{Kind: "session", Shape: "corpus-settings", Spell: "short", Rules: lin[:1], NHooks: 1,
+			Settings: []*HookSettings{{IntervalMs: 30, Burst: 1}},
+			Requests: []Req{{Src: v(0), Desired: v(3), NReq: 1, Plan: oks(4)}, {Src: v(0), Desired: Ver{1, 3}, NReq: 2, Plan: oks(4)},
+				{Src: Ver{1, 0}, Desired: v(3), NReq: 1, Plan: oks(4)}}},
+		// two hooks alternate over three steps (hook 0: steps 1 and 3), burst 2 / the default burst; two requests
+		{Kind: "session", Shape: "corpus-settings", Spell: "short", Rules: lin, NHooks: 2,
+			Settings: []*HookSettings{{IntervalMs: 20, Burst: 2}, {IntervalMs: 20, Burst: 0}},
+			Requests: []Req{{Src: v(0), Desired: v(8), NReq: 1, Plan: oks(4)}, {Src: v(0), Desired: v(8), NReq: 2, Plan: oks(4)}}},
+		// a throttled step that then fails with its own message: still the failing hook's message, still no later step
+		{Kind: "session", Shape: "corpus-settings", Spell: "short", Rules: lin, NHooks: 1,
+			Settings: []*HookSettings{{IntervalMs: 25, Burst: 1}},
+			Requests: []Req{{Src: v(0), Desired: v(8), NReq: 1, Plan: with(oks(4), 1, Step{Kind: "failmsg", Class: "percent", Text: "throttled but 100% sure: %d"})},
+				{Src: v(0), Desired: v(8), NReq: 1, Plan: oks(4)}}},
+		// the documented style, an interval in seconds
+		{Kind: "session", Shape: "corpus-settings", Spell: "short", Rules: lin[:2], NHooks: 1,
+			Settings: []*HookSettings{{IntervalMs: 1000, Burst: 1}},
+			Requests: []Req{{Src: Ver{1, 0}, Desired: Ver{1, 5}, NReq: 1, Plan: oks(4)}}},
+		// settings without a limit (interval 0), and a hook without settings next to a limited one
+		{Kind: "session", Shape: "corpus-settings", Spell: "short", Rules: lin[:2], NHooks: 2,
+			Settings: []*HookSettings{{IntervalMs: 0, Burst: 1}, nil},
+			Requests: []Req{{Src: v(0), Desired: v(5), NReq: 1, Plan: oks(4)}, {Src: v(0), Desired: v(5), NReq: 1, Plan: oks(4)}}},
+		// outside the domain (informational): a negative burst with a positive interval allows no execution at all
+		{Kind: "session", Shape: "corpus-never-runnable", Spell: "short", Rules: lin[:2], NHooks: 1,
+			Settings: []*HookSettings{{IntervalMs: 40, Burst: -1}},
+			Requests: []Req{{Src: v(0), Desired: v(5), NReq: 1, Plan: oks(4)}}},
 	}
 }
 
@@ -1248,11 +1790,14 @@ func Gen(r *core.Rng, tier string) ([]core.In[Input], bool) {
 	}
 	g := &gen{r: r}
 	nGraphs, nHandler, nMsgRounds := 200, 160, 2
+	nSession, nSlow := 96, 2
 	switch tier {
 	case "thorough":
 		nGraphs, nHandler, nMsgRounds = 10000, 1500, 40
+		nSession, nSlow = 1200, 12
 	case "search":
 		nGraphs, nHandler, nMsgRounds = 1500, 300, 6
+		nSession, nSlow = 240, 2
 	}
 	for i := 0; i < nGraphs; i++ {
 		shape := shapes[g.r.Intn(len(shapes))]
@@ -1276,6 +1821,36 @@ func Gen(r *core.Rng, tier string) ([]core.In[Input], bool) {
 				add(g.messageCase(c, sp), "messages")
 			}
 		}
+	}
+	// sessions (hooks with settings, requests back to back).  They are generated last (the other streams
+	// keep their inputs) and spread evenly over the list: the driver gives every worker a contiguous
+	// slice, and a session lasts as long as its waits.
+	var sess []core.In[Input]
+	for i := 0; i < nSession; i++ {
+		if i%24 == 23 {
+			sess = append(sess, core.In[Input]{Input: g.sessionCase(true), Stream: "session-never-runnable(informational)"})
+		} else {
+			sess = append(sess, core.In[Input]{Input: g.sessionCase(false), Stream: "session"})
+		}
+	}
+	for i := 0; i < nSlow; i++ {
+		sess = append(sess, core.In[Input]{Input: g.slowSessionCase(), Stream: "session"})
+	}
+	{
+		nc := len(Corpus())
+		rest := ins[nc:]
+		mixed := append([]core.In[Input]{}, ins[:nc]...)
+		every := len(rest)/len(sess) + 1
+		k := 0
+		for i, x := range rest {
+			if i%every == 0 && k < len(sess) {
+				mixed = append(mixed, sess[k])
+				k++
+			}
+			mixed = append(mixed, x)
+		}
+		mixed = append(mixed, sess[k:]...)
+		ins = mixed
 	}
 	if tier == "thorough" || tier == "search" {
 		nv, mr := 4, 5
@@ -1309,6 +1884,6 @@ func Gen(r *core.Rng, tier string) ([]core.In[Input], bool) {
 
 var Driver = core.Driver[Input, Obs]{
 	Spec: core.Spec{Property: "C15", Imports: []string{"C15_Model", "C15_Spec", "C15_Corr"}, Corr: "C15_Corr", Triggers: nil, ShrinkKey: "rules",
-		Rule: "search cases: a generated rule graph (chains, forks after k steps, diamonds, cycles, random; near-miss names v1/v10/v1beta1/v1alpha1/v2/v2beta1/v20; spelt short, with group, or mixed) and all (from,to) pairs queried through the real ChainStorage.FindConversionChain on a fresh storage per query and on a shared one; every returned chain is judged by Coq (valid_chain), every nil by reachable, found/not-found is compared with the model. handler cases: real hooks (bash stubs) + real hook.Manager + real conversionEventHandler + real conversion.WebhookHandler router, one ConversionReview, scripted outcome per hook run (ok, exit 1, bad JSON, empty, failedMessage with/without objects, failedMessage \"\"/null/not a string, failedMessage of a hook that exits 1, fewer/more objects, wrong/mixed versions, early jump, no objects); hook runs (registrar, rule, objects received) and the answer compared with the model: result.status, the converted objects, and result.message BYTE FOR BYTE (no text is classified by the harness; the model C15_Model.serve produces the text of every message, the Spec demands that a failing hook's failedMessage is the answer's message). failedMessage texts are free text by class (tags msg:<class>, msghas:<feature>, msgspell:<JSON spelling in the response file: std|raw|uall|mixed>): plain, percent (%d %s %v %w %% %[1]d, trailing %, %2F ...), quote (quotes, backslashes, text that reads like an escape), newline (newlines, tabs, control bytes incl. NUL), unicode (Cyrillic, CJK, astral, U+2028, BOM, U+FFFD), space (leading/trailing blanks, a lone blank), html (< > &), lookalike (texts that read like the operator's own messages, null, {}), long (150-300 bytes). Streams: corpus (witnesses of F4a-F4d, message witnesses), random, two-groups (informational, outside the domain), handler (half of the faults concern the failedMessage), messages (every message class in every JSON spelling on a 1-3 step chain), exhaustive (thorough: every rule set of <=5 rules over the 4 versions v1,v10,v1beta1,v2 incl. self-rules, all 16 pairs, fresh and shared, plus one re-spelling). non-trivial = search: >=2 rules and a returned chain of >=2 steps; handler: chain found and at least one hook ran. distinct = distinct input text"},
+		Rule: "search cases: a generated rule graph (chains, forks after k steps, diamonds, cycles, random; near-miss names v1/v10/v1beta1/v1alpha1/v2/v2beta1/v20; spelt short, with group, or mixed) and all (from,to) pairs queried through the real ChainStorage.FindConversionChain on a fresh storage per query and on a shared one; every returned chain is judged by Coq (valid_chain), every nil by reachable, found/not-found is compared with the model. handler cases: real hooks (bash stubs) + real hook.Manager + real conversionEventHandler + real conversion.WebhookHandler router, one ConversionReview, scripted outcome per hook run (ok, exit 1, bad JSON, empty, failedMessage with/without objects, failedMessage \"\"/null/not a string, failedMessage of a hook that exits 1, fewer/more objects, wrong/mixed versions, early jump, no objects); hook runs (registrar, rule, objects received) and the answer compared with the model: result.status, the converted objects, and result.message BYTE FOR BYTE (no text is classified by the harness; the model C15_Model.serve produces the text of every message, the Spec demands that a failing hook's failedMessage is the answer's message). failedMessage texts are free text by class (tags msg:<class>, msghas:<feature>, msgspell:<JSON spelling in the response file: std|raw|uall|mixed>): plain, percent (%d %s %v %w %% %[1]d, trailing %, %2F ...), quote (quotes, backslashes, text that reads like an escape), newline (newlines, tabs, control bytes incl. NUL), unicode (Cyrillic, CJK, astral, U+2028, BOM, U+FFFD), space (leading/trailing blanks, a lone blank), html (< > &), lookalike (texts that read like the operator's own messages, null, {}), long (150-300 bytes). Streams: corpus (witnesses of F4a-F4d, message witnesses, sessions with settings), random, two-groups (informational, outside the domain), handler (half of the faults concern the failedMessage), messages (every message class in every JSON spelling on a 1-3 step chain), exhaustive (thorough: every rule set of <=5 rules over the 4 versions v1,v10,v1beta1,v2 incl. self-rules, all 16 pairs, fresh and shared, plus one re-spelling). session cases (kind:session): the same real stack, but hooks with `settings` (executionMinInterval 5-60 ms, a few of 1-2 s; executionBurst default/1/2/3; also interval 0 / negative = no limit, and hooks without settings beside limited ones), rules on a line of 1-3 steps (+ way back / side branch) registered by 1-3 hooks so that one hook serves several steps of a chain, and 1-3 ConversionReviews posted back to back to ONE operator (shared limiters and chain cache); per request the chain, the hook runs and the answer are compared with C15_Model.serve_session (every step through the hook-run task and RateLimitWait) and judged by P_search / P_handler: a rate-limited hook is delayed, never skipped. No clock reading enters the comparison (C15_session_state_irrelevant), so there is no timing tolerance; timing only decides what a case exercises: tag throttled-runs:<n> = hook runs that found their bucket empty (estimated from the stubs' timestamps), steps-by-a-hook-that-already-served-the-chain:<n>, interval:<class>, burst:<b>. A case lasts as long as its waits (generator budget 320 ms, slow cases 1-2 s); sessions are spread evenly over the workers. Informational stream session-never-runnable: a negative burst with a positive interval allows no execution of the hook at all (outside C15_Spec.settings_in_domain: compared with the model, not judged by P_handler). non-trivial = search: >=2 rules and a returned chain of >=2 steps; handler: chain found and at least one hook ran; session: every chain found and at least two hook runs. distinct = distinct input text"},
 	Gen: Gen, Run: Run, Render: Render, PerShard: 1000, Workers: 8, CaseTimout: 30 * time.Second,
 }
